@@ -54,7 +54,7 @@ Ltac ystep :=
     lazymatch goal with
     | |- context [X86.run _ _ _ _ _ _ _ PR (S ?f) pc st] =>
       rewrite (run_S A s junk slot avx2 popcnt c PR f pc st _ eq_refl);
-      cbv beta iota zeta delta [X86.step val ea wr64 rg vr set_reg set_vr set_fl set_res m_disp m_base m_idx
+      cbv beta iota zeta delta [X86.step val ea wr64 wr64f rg vr set_reg set_vr set_fl set_res m_disp m_base m_idx
            gAX gBX gCX gDX gSI gDI gR8 gR9 gR10 gR11 gR12 gR13 gR14 gR15 v0 v1 v2 v3 v4 v5 v6 v7 fl res]
     end
   end.
@@ -109,7 +109,7 @@ Proof.
   destruct (Z.eq_dec len 0) as [E0|N0].
   { (* empty *)
     eexists. ystep. rewrite holds_cmp_LT by (unfold two63; lia). replace (len <? 16) with true by lia. cbv iota.
-    ystep. ystep. cbn [holds zf]. rewrite Z.land_diag. replace (len =? 0) with true by lia. cbv iota.
+    ystep. ystep. cbn [holds zf logic_flags zflag]. rewrite Z.land_diag. replace (len =? 0) with true by lia. cbv iota.
     ystep. replace (0 + slot + 0 =? slot) with true by lia. cbv iota. rewrite store_m1. ystep.
     rewrite (nil_of_len0 E0). reflexivity. }
   set (n := length s). assert (Hn : len = Z.of_nat n) by reflexivity.
@@ -131,28 +131,28 @@ Proof.
     pose proof (movmsk_range t) as Rs. rewrite Lt in Rs.
     destruct (Z.eq_dec (movmsk t) 0) as [Mz|Mnz].
     + eexists. ystep. rewrite holds_cmp_LT by (unfold two63; lia). replace (len <? 16) with true by lia. cbv iota.
-      ystep. ystep. cbn [holds zf]. rewrite Z.land_diag. replace (len =? 0) with false by lia. cbv iota.
+      ystep. ystep. cbn [holds zf logic_flags zflag]. rewrite Z.land_diag. replace (len =? 0) with false by lia. cbv iota.
       ystep. rewrite in64_true by (unfold two64; lia). cbv iota.
-      ystep. ystep. cbn [holds zf]. rewrite testw_page by lia. replace ((16 + A + 0) mod 4096 <? 16) with true by lia. cbv iota.
+      ystep. ystep. cbn [holds zf logic_flags zflag]. rewrite testw_page by lia. replace ((16 + A + 0) mod 4096 <? 16) with true by lia. cbv iota.
       ystep. rewrite (load_bytes A s junk 16 _ Hrd), Eb. cbv iota.
       ystep. ystep. rewrite (cmp_low16 cc _ _ _ _ Hx0 LJ), map_app.
       ystep. ystep. ystep. ystep. replace len with (Z.of_nat (length t)) by lia.
       rewrite (shift_mask_gen (map (ind f) J) t) by (try exact LJ0; lia). rewrite Mz. change (0 =? 0) with true. cbv iota.
-      ystep. cbn [holds zf]. cbv iota.
+      ystep. cbn [holds zf logic_flags zflag]. cbv iota.
       ystep. replace (0 + slot + 0 =? slot) with true by lia. cbv iota. rewrite store_m1. ystep.
       f_equal. f_equal. symmetry. apply movmsk_zero. exact Mz.
     + assert (Hbsf : bsf (movmsk t) = fh t) by (apply bsf_movmsk; [lia|exact Mnz]).
       pose proof (fh_range t) as Rfs. rewrite Lt in Rfs.
       assert (Hne : fh t <> -1) by (intros E; apply movmsk_zero in E; congruence).
       eexists. ystep. rewrite holds_cmp_LT by (unfold two63; lia). replace (len <? 16) with true by lia. cbv iota.
-      ystep. ystep. cbn [holds zf]. rewrite Z.land_diag. replace (len =? 0) with false by lia. cbv iota.
+      ystep. ystep. cbn [holds zf logic_flags zflag]. rewrite Z.land_diag. replace (len =? 0) with false by lia. cbv iota.
       ystep. rewrite in64_true by (unfold two64; lia). cbv iota.
-      ystep. ystep. cbn [holds zf]. rewrite testw_page by lia. replace ((16 + A + 0) mod 4096 <? 16) with true by lia. cbv iota.
+      ystep. ystep. cbn [holds zf logic_flags zflag]. rewrite testw_page by lia. replace ((16 + A + 0) mod 4096 <? 16) with true by lia. cbv iota.
       ystep. rewrite (load_bytes A s junk 16 _ Hrd), Eb. cbv iota.
       ystep. ystep. rewrite (cmp_low16 cc _ _ _ _ Hx0 LJ), map_app.
       ystep. ystep. ystep. ystep. replace len with (Z.of_nat (length t)) by lia.
       rewrite (shift_mask_gen (map (ind f) J) t) by (try exact LJ0; lia). replace (movmsk t =? 0) with false by lia. cbv iota. rewrite Hbsf.
-      ystep. cbn [holds zf]. cbv iota.
+      ystep. cbn [holds zf logic_flags zflag]. cbv iota.
       ystep. replace (0 + slot + 0 =? slot) with true by lia. cbv iota. ystep.
       f_equal. f_equal. unfold signed64, two63. replace (fh t <? 9223372036854775808) with true by lia. reflexivity.
   - (* load 16 bytes at s: s followed by 16 - len bytes of the same page *)
@@ -169,13 +169,13 @@ Proof.
     pose proof (movmsk_range t) as Rs. pose proof (movmsk_range tJ) as RJ.
     destruct (Z.eq_dec (movmsk (t ++ tJ)) 0) as [Mz|Mnz].
     + eexists. ystep. rewrite holds_cmp_LT by (unfold two63; lia). replace (len <? 16) with true by lia. cbv iota.
-      ystep. ystep. cbn [holds zf]. rewrite Z.land_diag. replace (len =? 0) with false by lia. cbv iota.
+      ystep. ystep. cbn [holds zf logic_flags zflag]. rewrite Z.land_diag. replace (len =? 0) with false by lia. cbv iota.
       ystep. rewrite in64_true by (unfold two64; lia). cbv iota.
-      ystep. ystep. cbn [holds zf]. rewrite testw_page by lia. replace ((16 + A + 0) mod 4096 <? 16) with false by lia. cbv iota.
+      ystep. ystep. cbn [holds zf logic_flags zflag]. rewrite testw_page by lia. replace ((16 + A + 0) mod 4096 <? 16) with false by lia. cbv iota.
       ystep. rewrite (load_bytes A s junk 16 _ Hrd), Eb. cbv iota.
       ystep. ystep. rewrite (cmp_low16 cc _ _ _ _ Hx0 LJ), map_app. fold tJ.
       ystep. rewrite (movmsk_small16 _ LtJ), Mz. change (0 =? 0) with true. cbv iota.
-      ystep. cbn [holds zf]. cbv iota.
+      ystep. cbn [holds zf logic_flags zflag]. cbv iota.
       ystep. replace (0 + slot + 0 =? slot) with true by lia. cbv iota. rewrite store_m1. ystep.
       f_equal. f_equal. symmetry. apply movmsk_zero. assert (0 <= 2 ^ Z.of_nat n) by (apply Z.pow_nonneg; lia). nia.
     + set (k := fh (t ++ tJ)).
@@ -189,25 +189,25 @@ Proof.
       { destruct (fh t <? 0) eqn:Fs; destruct (fh tJ <? 0) eqn:FJ; lia. }
       destruct Hcase as [[Fs Hge]|(Fs & Ek & Hlt)].
       * eexists. ystep. rewrite holds_cmp_LT by (unfold two63; lia). replace (len <? 16) with true by lia. cbv iota.
-        ystep. ystep. cbn [holds zf]. rewrite Z.land_diag. replace (len =? 0) with false by lia. cbv iota.
+        ystep. ystep. cbn [holds zf logic_flags zflag]. rewrite Z.land_diag. replace (len =? 0) with false by lia. cbv iota.
         ystep. rewrite in64_true by (unfold two64; lia). cbv iota.
-        ystep. ystep. cbn [holds zf]. rewrite testw_page by lia. replace ((16 + A + 0) mod 4096 <? 16) with false by lia. cbv iota.
+        ystep. ystep. cbn [holds zf logic_flags zflag]. rewrite testw_page by lia. replace ((16 + A + 0) mod 4096 <? 16) with false by lia. cbv iota.
         ystep. rewrite (load_bytes A s junk 16 _ Hrd), Eb. cbv iota.
         ystep. ystep. rewrite (cmp_low16 cc _ _ _ _ Hx0 LJ), map_app. fold tJ.
         ystep. rewrite (movmsk_small16 _ LtJ). replace (movmsk (t ++ tJ) =? 0) with false by lia. cbv iota. rewrite Hbsf.
-        ystep. cbn [holds zf]. cbv iota.
+        ystep. cbn [holds zf logic_flags zflag]. cbv iota.
         ystep. ystep. rewrite holds_cmp_AE. unfold two32.
         rewrite (Z.mod_small k) by lia. rewrite (Z.mod_small len) by lia.
         replace (len <=? k) with true by lia. cbv iota.
         ystep. replace (0 + slot + 0 =? slot) with true by lia. cbv iota. rewrite store_m1. ystep. congruence.
       * eexists. ystep. rewrite holds_cmp_LT by (unfold two63; lia). replace (len <? 16) with true by lia. cbv iota.
-        ystep. ystep. cbn [holds zf]. rewrite Z.land_diag. replace (len =? 0) with false by lia. cbv iota.
+        ystep. ystep. cbn [holds zf logic_flags zflag]. rewrite Z.land_diag. replace (len =? 0) with false by lia. cbv iota.
         ystep. rewrite in64_true by (unfold two64; lia). cbv iota.
-        ystep. ystep. cbn [holds zf]. rewrite testw_page by lia. replace ((16 + A + 0) mod 4096 <? 16) with false by lia. cbv iota.
+        ystep. ystep. cbn [holds zf logic_flags zflag]. rewrite testw_page by lia. replace ((16 + A + 0) mod 4096 <? 16) with false by lia. cbv iota.
         ystep. rewrite (load_bytes A s junk 16 _ Hrd), Eb. cbv iota.
         ystep. ystep. rewrite (cmp_low16 cc _ _ _ _ Hx0 LJ), map_app. fold tJ.
         ystep. rewrite (movmsk_small16 _ LtJ). replace (movmsk (t ++ tJ) =? 0) with false by lia. cbv iota. rewrite Hbsf.
-        ystep. cbn [holds zf]. cbv iota.
+        ystep. cbn [holds zf logic_flags zflag]. cbv iota.
         ystep. ystep. rewrite holds_cmp_AE. unfold two32.
         rewrite (Z.mod_small k) by lia. rewrite (Z.mod_small len) by lia.
         replace (len <=? k) with false by lia. cbv iota.
@@ -247,18 +247,18 @@ Proof.
   - eexists. unfold mk. ystep. ystep. replace (0 + ax + 0) with ax by lia. rewrite Hld. cbv iota.
     ystep. ystep. rewrite (cmp_low16 cc _ _ _ _ Hx0 Hlc).
     ystep. rewrite (movmsk_small16 _ Lm), Mz. change (0 =? 0) with true. cbv iota.
-    ystep. cbn [holds zf negb]. cbv iota.
+    ystep. cbn [holds zf negb option_map zflag]. cbv iota.
     ystep. replace (0 + slot + 0 =? slot) with true by lia. cbv iota. rewrite store_m1.
     ystep. rewrite (Cz Mz). reflexivity.
   - destruct (Cnz Mnz) as [Efh Rfh].
     assert (Hbsf : bsf (movmsk (map (ind f) data)) = fh (map (ind f) data)) by (apply bsf_movmsk; [lia|exact Mnz]).
     destruct (sse_success ax cx (fh (map (ind f) data)) ax r9 r10 r11 r12 r13 r14 r15 x0
                 (vput 16 (map2 (fun x y => if x =? y then 255 else 0) x0 (vput 16 data x1)) (vput 16 data x1)) x2 x3 x4 x5 x6 x7
-                {| zf := false; cf := cf fl0; lt := lt fl0 |}) as [fu Hfu]; try (unfold two63; lia).
+                (zflag false)) as [fu Hfu]; try (unfold two63; lia).
     eexists. unfold mk. ystep. ystep. replace (0 + ax + 0) with ax by lia. rewrite Hld. cbv iota.
     ystep. ystep. rewrite (cmp_low16 cc _ _ _ _ Hx0 Hlc).
     ystep. rewrite (movmsk_small16 _ Lm). replace (movmsk (map (ind f) data) =? 0) with false by lia. cbv iota. rewrite Hbsf.
-    ystep. cbn [holds zf negb]. cbv iota.
+    ystep. cbn [holds zf negb option_map zflag]. cbv iota.
     unfold mk in Hfu. rewrite Hfu. f_equal. f_equal. lia.
   Unshelve. all: exact O.
 Qed.
@@ -286,24 +286,24 @@ Proof.
       * specialize (Cz Mz). replace (16 * k + 16)%nat with (16 * S k)%nat in Cz by lia.
         destruct (IH (S k) ax cx 0 (di + 16) r9 r10 r11 r12 r13 r14 r15 x0
                     (vput 16 (map2 (fun x y => if x =? y then 255 else 0) x0 (vput 16 data x1)) (vput 16 data x1)) x2 x3 x4 x5 x6 x7
-                    {| zf := true; cf := cf (cmp_flags di ax signed64); lt := lt (cmp_flags di ax signed64) |} Hl Eax) as [fu Hfu]; try lia; [exact Hx0|].
+                    noflags Hl Eax) as [fu Hfu]; try lia; [exact Hx0|].
         eexists. unfold mk. ystep. ystep. rewrite holds_cmp_B. replace (di <? ax) with true by lia. cbv iota.
         ystep. replace (0 + di + 0) with di by lia. rewrite Hld. cbv iota.
         ystep. ystep. rewrite (cmp_low16 cc _ _ _ _ Hx0 Hlc).
         ystep. rewrite (movmsk_small16 _ Lm), Mz. change (0 =? 0) with true. cbv iota.
-        ystep. cbn [holds zf negb]. cbv iota.
+        ystep. cbn [holds zf negb option_map zflag]. cbv iota.
         ystep. change (16 mod two64) with 16. rewrite in64_true by (unfold two64; lia). cbv iota.
         unfold mk in Hfu. exact Hfu.
       * destruct (Cnz Mnz) as [Efh Rfh].
         assert (Hbsf : bsf (movmsk (map (ind f) data)) = fh (map (ind f) data)) by (apply bsf_movmsk; [lia|exact Mnz]).
         destruct (sse_success ax cx (fh (map (ind f) data)) di r9 r10 r11 r12 r13 r14 r15 x0
                     (vput 16 (map2 (fun x y => if x =? y then 255 else 0) x0 (vput 16 data x1)) (vput 16 data x1)) x2 x3 x4 x5 x6 x7
-                    {| zf := false; cf := cf (cmp_flags di ax signed64); lt := lt (cmp_flags di ax signed64) |}) as [fu Hfu]; try (unfold two63; lia).
+                    (zflag false)) as [fu Hfu]; try (unfold two63; lia).
         eexists. unfold mk. ystep. ystep. rewrite holds_cmp_B. replace (di <? ax) with true by lia. cbv iota.
         ystep. replace (0 + di + 0) with di by lia. rewrite Hld. cbv iota.
         ystep. ystep. rewrite (cmp_low16 cc _ _ _ _ Hx0 Hlc).
         ystep. rewrite (movmsk_small16 _ Lm). replace (movmsk (map (ind f) data) =? 0) with false by lia. cbv iota. rewrite Hbsf.
-        ystep. cbn [holds zf negb]. cbv iota.
+        ystep. cbn [holds zf negb option_map zflag]. cbv iota.
         unfold mk in Hfu. rewrite Hfu. f_equal. f_equal. lia.
     + destruct (sse_final ax cx dx di r9 r10 r11 r12 r13 r14 r15 x0 x1 x2 x3 x4 x5 x6 x7 (cmp_flags di ax signed64) Hl Eax) as [fu Hfu]; [|exact Hx0|].
       { apply (fh_firstn_prefix t (16 * k)); [exact Hp|lia]. }
@@ -369,7 +369,7 @@ Ltac avx2_chunk di data x2 x3 Hld L Hx2 Hx3 :=
   ystep; replace (0 + di + 0) with di by lia; rewrite Hld; cbv iota; rewrite (vput_full 32 data x2 L Hx2);
   ystep; rewrite (cmp32 cc data x3 L Hx3);
   ystep; rewrite ptest_ind;
-  ystep; cbn [holds zf negb].
+  ystep; cbn [holds zf negb option_map zflag].
 
 (* the last, overlapping chunk [len-32, len) *)
 Lemma avx2_final ax cx dx di r9 r10 r11 r12 r13 r14 r15 x0 x2 x3 x4 x5 x6 x7 fl0 :
@@ -391,7 +391,7 @@ Proof.
     ystep. rewrite (Cz Mz). reflexivity.
   - destruct (Cnz Mnz) as [Efh Rfh].
     destruct (avx2_success data ax cx dx r11 r9 r10 r11 r12 r13 r14 r15 x0 (repeat cc 32) data x4 x5 x6 x7
-                {| zf := false; cf := false; lt := false |} L Mnz) as [fu Hfu]; try (unfold two63; lia).
+                (zflag false) L Mnz) as [fu Hfu]; try (unfold two63; lia).
     eexists. unfold mk. ystep.
     avx2_chunk r11 data x2 x3 Hld L Hx2 Hx3.
     replace (movmsk (map (ind f) data) =? 0) with false by lia. cbv [negb]. cbv iota.
@@ -426,7 +426,7 @@ Proof.
     + 
     destruct (Cnz Mnz) as [Efh Rfh].
     destruct (avx2_success data ax cx dx di r9 r10 r11 r12 r13 r14 r15 x0 (repeat cc 32) data x4 x5 x6 x7
-                {| zf := false; cf := false; lt := false |} L Mnz) as [fu Hfu]; try (unfold two63; lia).
+                (zflag false) L Mnz) as [fu Hfu]; try (unfold two63; lia).
     eexists. unfold mk.
     avx2_chunk di data x2 x3 Hld L Hx2 Hx3.
     replace (movmsk (map (ind f) data) =? 0) with false by lia. cbv [negb]. cbv iota.
@@ -461,7 +461,7 @@ Proof.
     + 
     destruct (Cnz Mnz) as [Efh Rfh].
     destruct (avx2_success data ax cx dx di r9 r10 r11 r12 r13 r14 r15 x0 (repeat cc 32) data x4 x5 x6 x7
-                {| zf := false; cf := false; lt := false |} L Mnz) as [fu Hfu]; try (unfold two63; lia).
+                (zflag false) L Mnz) as [fu Hfu]; try (unfold two63; lia).
     eexists. unfold mk.
     avx2_chunk di data x2 x3 Hld L Hx2 Hx3.
     replace (movmsk (map (ind f) data) =? 0) with false by lia. cbv [negb]. cbv iota.
@@ -552,7 +552,7 @@ Proof.
   destruct (Z.eq_dec len 0) as [E0|N0].
   { (* empty *)
     eexists. ystep. rewrite holds_cmp_LT by (unfold two63; lia). replace (len <? 16) with true by lia. cbv iota.
-    ystep. ystep. cbn [holds zf]. rewrite Z.land_diag. replace (len =? 0) with true by lia. cbv iota.
+    ystep. ystep. cbn [holds zf logic_flags zflag]. rewrite Z.land_diag. replace (len =? 0) with true by lia. cbv iota.
     ystep. replace (0 + slot + 0 =? slot) with true by lia. cbv iota. rewrite store_m1. ystep.
     rewrite (nil_of_len0 E0). reflexivity. }
   set (n := length s). assert (Hn : len = Z.of_nat n) by reflexivity.
@@ -574,28 +574,28 @@ Proof.
     pose proof (movmsk_range t) as Rs. rewrite Lt in Rs.
     destruct (Z.eq_dec (movmsk t) 0) as [Mz|Mnz].
     + eexists. ystep. rewrite holds_cmp_LT by (unfold two63; lia). replace (len <? 16) with true by lia. cbv iota.
-      ystep. ystep. cbn [holds zf]. rewrite Z.land_diag. replace (len =? 0) with false by lia. cbv iota.
+      ystep. ystep. cbn [holds zf logic_flags zflag]. rewrite Z.land_diag. replace (len =? 0) with false by lia. cbv iota.
       ystep. rewrite in64_true by (unfold two64; lia). cbv iota.
-      ystep. ystep. cbn [holds zf]. rewrite testw_page by lia. replace ((16 + A + 0) mod 4096 <? 16) with true by lia. cbv iota.
+      ystep. ystep. cbn [holds zf logic_flags zflag]. rewrite testw_page by lia. replace ((16 + A + 0) mod 4096 <? 16) with true by lia. cbv iota.
       ystep. rewrite (load_bytes A s junk 16 _ Hrd), Eb. cbv iota.
       ystep. ystep. ystep. rewrite (cmp_or_low16 cc _ _ _ _ _ Hx0 Hx2m LJ), map_app.
       ystep. ystep. ystep. ystep. replace len with (Z.of_nat (length t)) by lia.
       rewrite (shift_mask_gen (map (ind f) J) t) by (try exact LJ0; lia). rewrite Mz. change (0 =? 0) with true. cbv iota.
-      ystep. cbn [holds zf]. cbv iota.
+      ystep. cbn [holds zf logic_flags zflag]. cbv iota.
       ystep. replace (0 + slot + 0 =? slot) with true by lia. cbv iota. rewrite store_m1. ystep.
       f_equal. f_equal. symmetry. apply movmsk_zero. exact Mz.
     + assert (Hbsf : bsf (movmsk t) = fh t) by (apply bsf_movmsk; [lia|exact Mnz]).
       pose proof (fh_range t) as Rfs. rewrite Lt in Rfs.
       assert (Hne : fh t <> -1) by (intros E; apply movmsk_zero in E; congruence).
       eexists. ystep. rewrite holds_cmp_LT by (unfold two63; lia). replace (len <? 16) with true by lia. cbv iota.
-      ystep. ystep. cbn [holds zf]. rewrite Z.land_diag. replace (len =? 0) with false by lia. cbv iota.
+      ystep. ystep. cbn [holds zf logic_flags zflag]. rewrite Z.land_diag. replace (len =? 0) with false by lia. cbv iota.
       ystep. rewrite in64_true by (unfold two64; lia). cbv iota.
-      ystep. ystep. cbn [holds zf]. rewrite testw_page by lia. replace ((16 + A + 0) mod 4096 <? 16) with true by lia. cbv iota.
+      ystep. ystep. cbn [holds zf logic_flags zflag]. rewrite testw_page by lia. replace ((16 + A + 0) mod 4096 <? 16) with true by lia. cbv iota.
       ystep. rewrite (load_bytes A s junk 16 _ Hrd), Eb. cbv iota.
       ystep. ystep. ystep. rewrite (cmp_or_low16 cc _ _ _ _ _ Hx0 Hx2m LJ), map_app.
       ystep. ystep. ystep. ystep. replace len with (Z.of_nat (length t)) by lia.
       rewrite (shift_mask_gen (map (ind f) J) t) by (try exact LJ0; lia). replace (movmsk t =? 0) with false by lia. cbv iota. rewrite Hbsf.
-      ystep. cbn [holds zf]. cbv iota.
+      ystep. cbn [holds zf logic_flags zflag]. cbv iota.
       ystep. replace (0 + slot + 0 =? slot) with true by lia. cbv iota. ystep.
       f_equal. f_equal. unfold signed64, two63. replace (fh t <? 9223372036854775808) with true by lia. reflexivity.
   - (* load 16 bytes at s: s followed by 16 - len bytes of the same page *)
@@ -612,13 +612,13 @@ Proof.
     pose proof (movmsk_range t) as Rs. pose proof (movmsk_range tJ) as RJ.
     destruct (Z.eq_dec (movmsk (t ++ tJ)) 0) as [Mz|Mnz].
     + eexists. ystep. rewrite holds_cmp_LT by (unfold two63; lia). replace (len <? 16) with true by lia. cbv iota.
-      ystep. ystep. cbn [holds zf]. rewrite Z.land_diag. replace (len =? 0) with false by lia. cbv iota.
+      ystep. ystep. cbn [holds zf logic_flags zflag]. rewrite Z.land_diag. replace (len =? 0) with false by lia. cbv iota.
       ystep. rewrite in64_true by (unfold two64; lia). cbv iota.
-      ystep. ystep. cbn [holds zf]. rewrite testw_page by lia. replace ((16 + A + 0) mod 4096 <? 16) with false by lia. cbv iota.
+      ystep. ystep. cbn [holds zf logic_flags zflag]. rewrite testw_page by lia. replace ((16 + A + 0) mod 4096 <? 16) with false by lia. cbv iota.
       ystep. rewrite (load_bytes A s junk 16 _ Hrd), Eb. cbv iota.
       ystep. ystep. ystep. rewrite (cmp_or_low16 cc _ _ _ _ _ Hx0 Hx2m LJ), map_app. fold tJ.
       ystep. rewrite (movmsk_small16 _ LtJ), Mz. change (0 =? 0) with true. cbv iota.
-      ystep. cbn [holds zf]. cbv iota.
+      ystep. cbn [holds zf logic_flags zflag]. cbv iota.
       ystep. replace (0 + slot + 0 =? slot) with true by lia. cbv iota. rewrite store_m1. ystep.
       f_equal. f_equal. symmetry. apply movmsk_zero. assert (0 <= 2 ^ Z.of_nat n) by (apply Z.pow_nonneg; lia). nia.
     + set (k := fh (t ++ tJ)).
@@ -632,25 +632,25 @@ Proof.
       { destruct (fh t <? 0) eqn:Fs; destruct (fh tJ <? 0) eqn:FJ; lia. }
       destruct Hcase as [[Fs Hge]|(Fs & Ek & Hlt)].
       * eexists. ystep. rewrite holds_cmp_LT by (unfold two63; lia). replace (len <? 16) with true by lia. cbv iota.
-        ystep. ystep. cbn [holds zf]. rewrite Z.land_diag. replace (len =? 0) with false by lia. cbv iota.
+        ystep. ystep. cbn [holds zf logic_flags zflag]. rewrite Z.land_diag. replace (len =? 0) with false by lia. cbv iota.
         ystep. rewrite in64_true by (unfold two64; lia). cbv iota.
-        ystep. ystep. cbn [holds zf]. rewrite testw_page by lia. replace ((16 + A + 0) mod 4096 <? 16) with false by lia. cbv iota.
+        ystep. ystep. cbn [holds zf logic_flags zflag]. rewrite testw_page by lia. replace ((16 + A + 0) mod 4096 <? 16) with false by lia. cbv iota.
         ystep. rewrite (load_bytes A s junk 16 _ Hrd), Eb. cbv iota.
         ystep. ystep. ystep. rewrite (cmp_or_low16 cc _ _ _ _ _ Hx0 Hx2m LJ), map_app. fold tJ.
         ystep. rewrite (movmsk_small16 _ LtJ). replace (movmsk (t ++ tJ) =? 0) with false by lia. cbv iota. rewrite Hbsf.
-        ystep. cbn [holds zf]. cbv iota.
+        ystep. cbn [holds zf logic_flags zflag]. cbv iota.
         ystep. ystep. rewrite holds_cmp_AE. unfold two32.
         rewrite (Z.mod_small k) by lia. rewrite (Z.mod_small len) by lia.
         replace (len <=? k) with true by lia. cbv iota.
         ystep. replace (0 + slot + 0 =? slot) with true by lia. cbv iota. rewrite store_m1. ystep. congruence.
       * eexists. ystep. rewrite holds_cmp_LT by (unfold two63; lia). replace (len <? 16) with true by lia. cbv iota.
-        ystep. ystep. cbn [holds zf]. rewrite Z.land_diag. replace (len =? 0) with false by lia. cbv iota.
+        ystep. ystep. cbn [holds zf logic_flags zflag]. rewrite Z.land_diag. replace (len =? 0) with false by lia. cbv iota.
         ystep. rewrite in64_true by (unfold two64; lia). cbv iota.
-        ystep. ystep. cbn [holds zf]. rewrite testw_page by lia. replace ((16 + A + 0) mod 4096 <? 16) with false by lia. cbv iota.
+        ystep. ystep. cbn [holds zf logic_flags zflag]. rewrite testw_page by lia. replace ((16 + A + 0) mod 4096 <? 16) with false by lia. cbv iota.
         ystep. rewrite (load_bytes A s junk 16 _ Hrd), Eb. cbv iota.
         ystep. ystep. ystep. rewrite (cmp_or_low16 cc _ _ _ _ _ Hx0 Hx2m LJ), map_app. fold tJ.
         ystep. rewrite (movmsk_small16 _ LtJ). replace (movmsk (t ++ tJ) =? 0) with false by lia. cbv iota. rewrite Hbsf.
-        ystep. cbn [holds zf]. cbv iota.
+        ystep. cbn [holds zf logic_flags zflag]. cbv iota.
         ystep. ystep. rewrite holds_cmp_AE. unfold two32.
         rewrite (Z.mod_small k) by lia. rewrite (Z.mod_small len) by lia.
         replace (len <=? k) with false by lia. cbv iota.
@@ -690,18 +690,18 @@ Proof.
   - eexists. unfold mk. ystep. ystep. replace (0 + ax + 0) with ax by lia. rewrite Hld. cbv iota.
     ystep. ystep. ystep. rewrite (cmp_or_low16 cc _ _ _ _ _ Hx0 Hx2m Hlc).
     ystep. rewrite (movmsk_small16 _ Lm), Mz. change (0 =? 0) with true. cbv iota.
-    ystep. cbn [holds zf negb]. cbv iota.
+    ystep. cbn [holds zf negb option_map zflag]. cbv iota.
     ystep. replace (0 + slot + 0 =? slot) with true by lia. cbv iota. rewrite store_m1.
     ystep. rewrite (Cz Mz). reflexivity.
   - destruct (Cnz Mnz) as [Efh Rfh].
     assert (Hbsf : bsf (movmsk (map (ind f) data)) = fh (map (ind f) data)) by (apply bsf_movmsk; [lia|exact Mnz]).
     destruct (sse_success_c ax cx (fh (map (ind f) data)) ax r9 r10 r11 r12 r13 r14 r15 x0
                 (vput 16 (map2 (fun x y => if x =? y then 255 else 0) x0 (vput 16 (map2 Z.lor x2 (vput 16 data x1)) (vput 16 data x1))) (vput 16 (map2 Z.lor x2 (vput 16 data x1)) (vput 16 data x1))) x2 x3 x4 x5 x6 x7
-                {| zf := false; cf := cf fl0; lt := lt fl0 |}) as [fu Hfu]; try (unfold two63; lia).
+                (zflag false)) as [fu Hfu]; try (unfold two63; lia).
     eexists. unfold mk. ystep. ystep. replace (0 + ax + 0) with ax by lia. rewrite Hld. cbv iota.
     ystep. ystep. ystep. rewrite (cmp_or_low16 cc _ _ _ _ _ Hx0 Hx2m Hlc).
     ystep. rewrite (movmsk_small16 _ Lm). replace (movmsk (map (ind f) data) =? 0) with false by lia. cbv iota. rewrite Hbsf.
-    ystep. cbn [holds zf negb]. cbv iota.
+    ystep. cbn [holds zf negb option_map zflag]. cbv iota.
     unfold mk in Hfu. rewrite Hfu. f_equal. f_equal. lia.
   Unshelve. all: exact O.
 Qed.
@@ -729,24 +729,24 @@ Proof.
       * specialize (Cz Mz). replace (16 * k + 16)%nat with (16 * S k)%nat in Cz by lia.
         destruct (IH (S k) ax cx 0 (di + 16) r9 r10 r11 r12 r13 r14 r15 x0
                     (vput 16 (map2 (fun x y => if x =? y then 255 else 0) x0 (vput 16 (map2 Z.lor x2 (vput 16 data x1)) (vput 16 data x1))) (vput 16 (map2 Z.lor x2 (vput 16 data x1)) (vput 16 data x1))) x2 x3 x4 x5 x6 x7
-                    {| zf := true; cf := cf (cmp_flags di ax signed64); lt := lt (cmp_flags di ax signed64) |} Hl Eax) as [fu Hfu]; try lia; [exact Hx0|exact Hx2m|].
+                    noflags Hl Eax) as [fu Hfu]; try lia; [exact Hx0|exact Hx2m|].
         eexists. unfold mk. ystep. ystep. rewrite holds_cmp_B. replace (di <? ax) with true by lia. cbv iota.
         ystep. replace (0 + di + 0) with di by lia. rewrite Hld. cbv iota.
         ystep. ystep. ystep. rewrite (cmp_or_low16 cc _ _ _ _ _ Hx0 Hx2m Hlc).
         ystep. rewrite (movmsk_small16 _ Lm), Mz. change (0 =? 0) with true. cbv iota.
-        ystep. cbn [holds zf negb]. cbv iota.
+        ystep. cbn [holds zf negb option_map zflag]. cbv iota.
         ystep. change (16 mod two64) with 16. rewrite in64_true by (unfold two64; lia). cbv iota.
         unfold mk in Hfu. exact Hfu.
       * destruct (Cnz Mnz) as [Efh Rfh].
         assert (Hbsf : bsf (movmsk (map (ind f) data)) = fh (map (ind f) data)) by (apply bsf_movmsk; [lia|exact Mnz]).
         destruct (sse_success_c ax cx (fh (map (ind f) data)) di r9 r10 r11 r12 r13 r14 r15 x0
                     (vput 16 (map2 (fun x y => if x =? y then 255 else 0) x0 (vput 16 (map2 Z.lor x2 (vput 16 data x1)) (vput 16 data x1))) (vput 16 (map2 Z.lor x2 (vput 16 data x1)) (vput 16 data x1))) x2 x3 x4 x5 x6 x7
-                    {| zf := false; cf := cf (cmp_flags di ax signed64); lt := lt (cmp_flags di ax signed64) |}) as [fu Hfu]; try (unfold two63; lia).
+                    (zflag false)) as [fu Hfu]; try (unfold two63; lia).
         eexists. unfold mk. ystep. ystep. rewrite holds_cmp_B. replace (di <? ax) with true by lia. cbv iota.
         ystep. replace (0 + di + 0) with di by lia. rewrite Hld. cbv iota.
         ystep. ystep. ystep. rewrite (cmp_or_low16 cc _ _ _ _ _ Hx0 Hx2m Hlc).
         ystep. rewrite (movmsk_small16 _ Lm). replace (movmsk (map (ind f) data) =? 0) with false by lia. cbv iota. rewrite Hbsf.
-        ystep. cbn [holds zf negb]. cbv iota.
+        ystep. cbn [holds zf negb option_map zflag]. cbv iota.
         unfold mk in Hfu. rewrite Hfu. f_equal. f_equal. lia.
     + destruct (sse_final_c ax cx dx di r9 r10 r11 r12 r13 r14 r15 x0 x1 x2 x3 x4 x5 x6 x7 (cmp_flags di ax signed64) Hl Eax) as [fu Hfu]; [|exact Hx0|exact Hx2m|].
       { apply (fh_firstn_prefix t (16 * k)); [exact Hp|lia]. }
@@ -813,7 +813,7 @@ Ltac avx2_chunk_c di data x2 x3 Hld L Hx2 Hx3 :=
   ystep; rewrite (or32 data data L) by lia;
   ystep; rewrite (cmp_or32 cc data x3 L Hx3);
   ystep; rewrite ptest_ind;
-  ystep; cbn [holds zf negb].
+  ystep; cbn [holds zf negb option_map zflag].
 
 (* the last, overlapping chunk [len-32, len) *)
 Lemma avx2_final_c ax cx dx di r9 r10 r11 r12 r13 r14 r15 x0 x2 x3 x5 x6 x7 fl0 :
@@ -835,7 +835,7 @@ Proof.
     ystep. rewrite (Cz Mz). reflexivity.
   - destruct (Cnz Mnz) as [Efh Rfh].
     destruct (avx2_success_c data ax cx dx r11 r9 r10 r11 r12 r13 r14 r15 x0 (repeat cc 32) (map (Z.lor 32) data) x5 x6 x7
-                {| zf := false; cf := false; lt := false |} L Mnz) as [fu Hfu]; try (unfold two63; lia).
+                (zflag false) L Mnz) as [fu Hfu]; try (unfold two63; lia).
     eexists. unfold mk. ystep.
     avx2_chunk_c r11 data x2 x3 Hld L Hx2 Hx3.
     replace (movmsk (map (ind f) data) =? 0) with false by lia. cbv [negb]. cbv iota.
@@ -870,7 +870,7 @@ Proof.
     + 
     destruct (Cnz Mnz) as [Efh Rfh].
     destruct (avx2_success_c data ax cx dx di r9 r10 r11 r12 r13 r14 r15 x0 (repeat cc 32) (map (Z.lor 32) data) x5 x6 x7
-                {| zf := false; cf := false; lt := false |} L Mnz) as [fu Hfu]; try (unfold two63; lia).
+                (zflag false) L Mnz) as [fu Hfu]; try (unfold two63; lia).
     eexists. unfold mk.
     avx2_chunk_c di data x2 x3 Hld L Hx2 Hx3.
     replace (movmsk (map (ind f) data) =? 0) with false by lia. cbv [negb]. cbv iota.
@@ -905,7 +905,7 @@ Proof.
     + 
     destruct (Cnz Mnz) as [Efh Rfh].
     destruct (avx2_success_c data ax cx dx di r9 r10 r11 r12 r13 r14 r15 x0 (repeat cc 32) (map (Z.lor 32) data) x5 x6 x7
-                {| zf := false; cf := false; lt := false |} L Mnz) as [fu Hfu]; try (unfold two63; lia).
+                (zflag false) L Mnz) as [fu Hfu]; try (unfold two63; lia).
     eexists. unfold mk.
     avx2_chunk_c di data x2 x3 Hld L Hx2 Hx3.
     replace (movmsk (map (ind f) data) =? 0) with false by lia. cbv [negb]. cbv iota.
